@@ -706,6 +706,17 @@ func c17Check(ineligible []string) func(r *rig) (string, string, string) {
 				}
 			}
 		}
+		r.mu.Lock()
+		queued := append([]queuedFile{}, r.queued...)
+		r.mu.Unlock()
+		for _, q := range queued {
+			if bad[q.Name] {
+				return fmt.Sprintf("C17: ineligible file %s was queued for sending (entered the queue cache)\n%s", q.Name, tr()), "", ""
+			}
+			if q.Size == 0 || q.Hash == emptyHash {
+				return fmt.Sprintf("C17: %s was queued for sending (entered the queue cache) as an EMPTY file (size %d, hash %s): an empty file is not eligible\n%s", q.Name, q.Size, q.Hash, tr()), "", ""
+			}
+		}
 		for _, e := range r.events {
 			if e.Kind == "remove" || e.Kind == "done" {
 				n := e.Key[strings.Index(e.Key, ":")+1 : strings.LastIndex(e.Key, "#")]
